@@ -11,8 +11,12 @@ REPS = ["pass", "break", "continue", "return x"]
 
 
 def compiles(text):
+    import warnings
+
     try:
-        compile(text, "<transpiled>", "exec")
+        with warnings.catch_warnings():
+            warnings.simplefilter("ignore")  # "invalid escape sequence" is a warning, not a failure to compile
+            compile(text, "<transpiled>", "exec")
         return None
     except SyntaxError as e:
         return f"{e.msg} (line {e.lineno})"
@@ -63,6 +67,9 @@ class C02(Prop):
                     continue
                 prog = form.replace("{}", t)
                 g.append(self.compile_ground(f"C02/compiles[{prog}]", prog))
+        # string literals whose text is a malformed Python escape sequence (the transpiler hands backslash pairs to Python as they are)
+        for prog in ["`\\x`", "`a\\u12`", "`\\N`", "`\\U0001`", "‛\\x", "λ`\\x4`;", "`\\x41`", "`\\N{DIGIT ONE}`", "`\\1`"]:
+            g.append(self.compile_ground(f"C02/compiles[{prog}]", prog))
         for s1, s2 in itertools.product(slots[:19], slots[:19]):
             for f in ("X", "x", "+"):
                 prog = s1.format(s2.format(f))
